@@ -2,6 +2,7 @@ package c05
 
 import (
 	"fmt"
+	"os"
 	"strings"
 
 	"verif/harness/internal/core"
@@ -537,13 +538,41 @@ func (prop) Run(line string) (o core.Outcome) {
 		return core.Outcome{Impl: "harness-error", Tags: []string{"harness-error"},
 			Failures: []core.Failure{fail("config-rejected", "a route tree over the alphabets could not be provisioned or inspected: "+err.Error())}}
 	}
+	if len(fails) > 0 {
+		// a failing case is evaluated again (fresh provisioning) before it is reported: only what
+		// reproduces counts; an observation that does not reproduce is counted in evidence
+		got2, _, fails2, err2 := evaluate(c)
+		if err2 == nil {
+			again := map[string]bool{}
+			for _, f := range fails2 {
+				again[f.Class] = true
+			}
+			var kept []core.Failure
+			for _, f := range fails {
+				if again[f.Class] || f.Class == "concurrent-requests-interfere" { // (a race need not repeat)
+					kept = append(kept, f)
+				}
+			}
+			if len(kept) != len(fails) || canon(got2) != canon(got) {
+				tags = append(tags, "evaluation-not-reproducible")
+				fmt.Fprintf(os.Stderr, "C05: evaluation not reproducible: %s | first %s (%d failures) | again %s (%d failures)\n",
+					c.line(), canon(got), len(fails), canon(got2), len(fails2))
+				if len(fails2) == 0 {
+					got = got2
+				}
+			}
+			fails = kept
+		}
+	}
 	o.Impl, o.Tags = canon(got), tags
 	for _, fl := range fails {
 		if shrunk[fl.Class] < 4 {
 			shrunk[fl.Class]++
 			small, sf := shrink(c, fl.Class)
-			fl = sf
-			fl.Case = small.line()
+			if sf.Class == fl.Class { // (a shrink whose starting point did not fail again keeps the original)
+				fl = sf
+				fl.Case = small.line()
+			}
 		}
 		o.Failures = append(o.Failures, fl)
 	}
